@@ -307,3 +307,54 @@ func VC_C18_map() {
 	}
 	vAlgebra(x, a, x, a, reflect.TypeOf(map[string]int(nil)), eq, true, eq, "C18.map")
 }
+
+type vArr2 [2]int
+
+// VC_C18_iface_kinds: an interface-typed parameter whose pattern and argument have
+// different dynamic kinds (func, int, float, struct, array, string, bool-free): never a
+// panic, equal only when the dynamic types agree and the values are equal; In is the union.
+func VC_C18_iface_kinds() {
+	n := verifInt("n")
+	type cand struct {
+		val  interface{}
+		kind int
+		n    int
+	}
+	cs := []cand{
+		{vF1, 0, 1}, {vF2, 0, 2},
+		{n, 1, n}, {7, 1, 7},
+		{2.5, 2, 0},
+		{vS{A: n, B: "b"}, 3, n},
+		{vArr2{n, 1}, 4, n},
+		{"s", 5, 0},
+	}
+	xi, ai := verifChoice("x", len(cs)), verifChoice("a", len(cs))
+	x, a := cs[xi], cs[ai]
+	t := reflect.TypeOf((*interface{})(nil)).Elem()
+	eval := func(e Expr) (r bool, panicked bool) {
+		defer func() {
+			if p := recover(); p != nil {
+				panicked = true
+			}
+		}()
+		if err := e.Resolve([]reflect.Type{t}, false); err != nil {
+			verifAssert(false, "C18.iface-kinds.resolve-no-error")
+		}
+		r, err := e.Eval([]reflect.Value{vArgValue(a.val, t)}, false)
+		verifAssert(err == nil, "C18.iface-kinds.eval-no-error")
+		return r, false
+	}
+	want := x.kind == a.kind && x.n == a.n
+	r, p := eval(Equals(x.val))
+	verifAssert(!p, "C18.iface-kinds.no-panic")
+	if !p {
+		verifAssert(r == want, "C18.iface-kinds.equal-only-same-kind-and-value")
+	}
+	// In(x, a) always accepts a, whatever kind x has
+	r2, p2 := eval(In(x.val, a.val))
+	verifAssert(!p2, "C18.iface-kinds.in-no-panic")
+	if !p2 {
+		verifAssert(r2, "C18.iface-kinds.in-is-union")
+	}
+	verifReached("C18.iface-kinds")
+}
